@@ -537,6 +537,59 @@ fn c19_run(cx: &mut Ctx, intro: &str, code: char, payload: &str, term: &str, cut
     }
 }
 
+/// several OSC strings on ONE parser: what an earlier string (ignored code, other terminator,
+/// empty payload) leaves behind must not leak into a later title
+fn c19_multi(cx: &mut Ctx, parts: &[(String, char, String, String)], pk: PK) {
+    // parts: (intro, code, payload, terminator)
+    let mut seq = String::new();
+    let (mut want_title, mut want_icon) = (String::from("T0"), String::from("I0"));
+    for (intro, code, payload, term) in parts {
+        seq.push_str(&format!("{}{};{}{}", intro, code, payload, term));
+        match code {
+            '0' => {
+                want_title = payload.clone();
+                want_icon = payload.clone();
+            }
+            '1' => want_icon = payload.clone(),
+            '2' => want_title = payload.clone(),
+            _ => {}
+        }
+    }
+    let full = format!("{}Z", seq);
+    let mk = || {
+        let mut c = Case::new("C19", "multi", 12, 2, pk);
+        c.ops = vec![Op::Feed(seq.clone())];
+        c.aux = json!({"parts": parts.iter().map(|p| json!([p.0, p.1.to_string(), p.2, p.3])).collect::<Vec<_>>()});
+        c
+    };
+    let mut sys = Sys::new(12, 2, pk);
+    sys.set_recording(false, false);
+    let _ = sys.try_apply(&Op::Api(Call::SetTitle("T0".into())));
+    let _ = sys.try_apply(&Op::Api(Call::SetIconName("I0".into())));
+    let res = sys.try_apply(&Op::Feed(full.clone()));
+    let codes: String = parts.iter().map(|p| if "012".contains(p.1) { p.1 } else { 'x' }).collect();
+    cx.stats.eval(&format!("multi|{}|{:?}", codes, pk), true);
+    cx.stats.clause("osc-multi");
+    if let Err(p) = res {
+        cx.violation(Viol { prop: "C19".into(), clause: "panic".into(), op: "osc".into(), bucket: panic_sig(&p), detail: format!("{:?}: panic {} at {}", full, p.msg, p.loc), case: mk() });
+        return;
+    }
+    let post = sys.snap();
+    let mut bad: Vec<(&'static str, String)> = Vec::new();
+    if post.title != want_title {
+        bad.push(("title", format!("title expected {:?} got {:?}", want_title, post.title)));
+    }
+    if post.icon != want_icon {
+        bad.push(("icon", format!("icon name expected {:?} got {:?}", want_icon, post.icon)));
+    }
+    if post.grid[0][0].text != "Z" || (post.cx, post.cy) != (1, 0) {
+        bad.push(("swallowed", format!("row 0 = {:?}, cursor ({},{})", post.row_text(0), post.cx, post.cy)));
+    }
+    for (cl, d) in bad {
+        cx.violation(Viol { prop: "C19".into(), clause: cl.into(), op: "osc-multi".into(), bucket: format!("codes={}", codes), detail: format!("{:?} via {:?}: {}", full, pk, d), case: mk() });
+    }
+}
+
 fn payload_class(p: &str) -> &'static str {
     if p.is_empty() {
         "empty"
@@ -621,6 +674,36 @@ impl Check for C19Check {
         if complete {
             cx.stats.exhaustive_parts.insert("2 introducers x 19 codes x 3 terminators x 108 fixed payloads (every printable ASCII singleton and 13 special ones), every 2-way cut for codes 0/1/2".into());
         }
+        // all ordered pairs (and some triples) of OSC strings on one parser
+        if cx.begin_group("osc pairs") {
+            let mut k = 0u64;
+            let pcodes = ['0', '1', '2', '4', '7', 'x', 'l'];
+            let payloads = ["", "a", "1;rgb:ff/00/00", "p q"];
+            for c1 in pcodes {
+                for c2 in pcodes {
+                    for p1 in payloads {
+                        for p2 in payloads {
+                            k += 1;
+                            if !cx.mine(k) {
+                                continue;
+                            }
+                            let t1 = terms[(k % 3) as usize];
+                            let t2 = terms[((k / 3) % 3) as usize];
+                            let i1 = intros[(k % 2) as usize];
+                            let pk = if k % 4 == 0 { PK::Bytes } else { PK::Chars };
+                            let parts = vec![(i1.to_string(), c1, p1.to_string(), t1.to_string()), ("\x1b]".to_string(), c2, p2.to_string(), t2.to_string())];
+                            c19_multi(cx, &parts, pk);
+                            if k % 5 == 0 {
+                                let mut three = parts.clone();
+                                three.push(("\x1b]".to_string(), '2', "third".to_string(), "\x07".to_string()));
+                                c19_multi(cx, &three, pk);
+                            }
+                        }
+                    }
+                }
+            }
+            cx.stats.exhaustive_parts.insert("all ordered pairs of OSC strings over 7 codes x 4 payloads on one parser (terminators / introducers rotated), every fifth extended to a triple".into());
+        }
         while !cx.out_of_time() {
             if !cx.begin_group("osc random") {
                 if cx.past_only_group() {
@@ -642,6 +725,18 @@ impl Check for C19Check {
     }
     fn replay(&self, case: &Case, cx: &mut Ctx) {
         let a = &case.aux;
+        if case.kind == "multi" {
+            let parts: Vec<(String, char, String, String)> = a["parts"]
+                .as_array()
+                .map(|v| {
+                    v.iter()
+                        .map(|e| (e[0].as_str().unwrap_or("").to_string(), e[1].as_str().unwrap_or("0").chars().next().unwrap_or('0'), e[2].as_str().unwrap_or("").to_string(), e[3].as_str().unwrap_or("").to_string()))
+                        .collect()
+                })
+                .unwrap_or_default();
+            c19_multi(cx, &parts, case.pk);
+            return;
+        }
         c19_run(
             cx,
             a["intro"].as_str().unwrap_or("\x1b]"),
